@@ -75,6 +75,23 @@ type c2Case struct {
 	// (its peer answers the STARTTLS request), handshake (its peer's TLS server
 	// answers the ClientHello, and everything after that).
 	Inter *interSpec `json:"inter,omitempty"`
+	// ShareNeg: the sessions of a Reuse/Inter history are negotiated with ONE
+	// Negotiator value (xmpp.NewNegotiator called once), not only one feature value.
+	ShareNeg bool `json:"share_negotiator,omitempty"`
+	// LaterIn/LaterTLSIn: what the peers of the later sessions of a history
+	// (every session but the first) send, when it differs from In/TLSIn.
+	LaterIn    []nx.Item `json:"later_in,omitempty"`
+	LaterTLSIn []nx.Item `json:"later_tls_in,omitempty"`
+}
+
+// forSession returns the case as session si of its history sees it.
+func (c *c2Case) forSession(si int, domain string) *c2Case {
+	cc := *c
+	cc.Domain = domain
+	if si > 0 && c.LaterIn != nil {
+		cc.In, cc.TLSIn = c.LaterIn, c.LaterTLSIn
+	}
+	return &cc
 }
 
 type interSpec struct {
@@ -460,14 +477,69 @@ const (
 // buildFeatures returns the configured features (real ones wrapped for
 // logging) and their model descriptions. stls, when non-nil, is a StartTLS
 // feature value shared with other sessions.
-func buildFeatures(c *c2Case, log *nx.Log, stls *xmpp.StreamFeature) ([]xmpp.StreamFeature, []nx.FeatSpec) {
+// sessCtx is what the shared feature values need to know about the session a
+// callback runs for; it travels in the context given to NewSession.
+type sessCtx struct {
+	log    *nx.Log
+	c      *c2Case
+	xcalls int
+}
+
+type sessKey struct{}
+
+func sessOf(ctx context.Context) *sessCtx { return ctx.Value(sessKey{}).(*sessCtx) }
+
+func logOf(ctx context.Context) *nx.Log { return sessOf(ctx).log }
+
+// negotiation is a Negotiator value with the feature values it was built from
+// (and their model descriptions); it may serve several sessions.
+type negotiation struct {
+	neg   xmpp.Negotiator
+	specs []nx.FeatSpec
+}
+
+// newNegotiation builds the features of c (stls, when non-nil, is a StartTLS
+// feature value shared with other negotiations) and one Negotiator from them.
+func newNegotiation(c *c2Case, stls *xmpp.StreamFeature) *negotiation {
+	feats, specs := buildFeatures(c, stls)
+	tee := c.Tee
+	var teeIn, teeOut syncBuffer
+	neg := xmpp.NewNegotiator(func(*xmpp.Session, *xmpp.StreamConfig) xmpp.StreamConfig {
+		sc := xmpp.StreamConfig{Features: feats}
+		if tee&1 != 0 {
+			sc.TeeIn = &teeIn
+		}
+		if tee&2 != 0 {
+			sc.TeeOut = &teeOut
+		}
+		return sc
+	})
+	return &negotiation{neg: neg, specs: specs}
+}
+
+// syncBuffer is a tee target that several sessions may write to.
+type syncBuffer struct {
+	mu sync.Mutex
+	n  int
+}
+
+func (b *syncBuffer) Write(p []byte) (int, error) {
+	b.mu.Lock()
+	b.n += len(p)
+	b.mu.Unlock()
+	return len(p), nil
+}
+
+// buildFeatures returns the configured features (real ones wrapped for
+// logging) and their model descriptions. stls, when non-nil, is a StartTLS
+// feature value shared with other sessions.
+func buildFeatures(c *c2Case, stls *xmpp.StreamFeature) ([]xmpp.StreamFeature, []nx.FeatSpec) {
 	var fs []xmpp.StreamFeature
 	var specs []nx.FeatSpec
 	spec := func(f xmpp.StreamFeature, kind string) nx.FeatSpec {
 		return nx.FeatSpec{Space: f.Name.Space, Local: f.Name.Local, Nec: uint8(f.Necessary), Proh: uint8(f.Prohibited),
 			Neg: f.Negotiate != nil, Kind: kind}
 	}
-	xcalls := 0
 	for _, ch := range c.Feat {
 		switch ch {
 		case 't':
@@ -478,30 +550,31 @@ func buildFeatures(c *c2Case, log *nx.Log, stls *xmpp.StreamFeature) ([]xmpp.Str
 				f = xmpp.StartTLS(clientTLSConfig(c))
 			}
 			specs = append(specs, spec(f, "starttls"))
-			fs = append(fs, nx.LoggedFeature(f, log))
+			fs = append(fs, nx.LoggedFeature(f, logOf))
 		case 's':
 			f := xmpp.SASL("", "secret", sasl.Plain)
 			specs = append(specs, spec(f, ""))
-			fs = append(fs, nx.LoggedFeature(f, log))
+			fs = append(fs, nx.LoggedFeature(f, logOf))
 		case 'b':
 			f := xmpp.BindResource()
 			specs = append(specs, spec(f, ""))
-			fs = append(fs, nx.LoggedFeature(f, log))
+			fs = append(fs, nx.LoggedFeature(f, logOf))
 		case 'x':
 			sp := nx.FeatSpec{Space: extraSpace, Local: "sm", Nec: nx.Secure, Neg: true}
 			specs = append(specs, sp)
-			fs = append(fs, nx.AbstractFeature(sp, log, func(nx.FeatSpec, uint8) nx.Outcome {
+			fs = append(fs, nx.AbstractFeature(sp, logOf, func(ctx context.Context, _ nx.FeatSpec, _ uint8) nx.Outcome {
+				sc := sessOf(ctx)
 				var o nx.Outcome
-				if xcalls < len(c.XOuts) {
-					o = c.XOuts[xcalls]
+				if sc.xcalls < len(sc.c.XOuts) {
+					o = sc.c.XOuts[sc.xcalls]
 				}
-				xcalls++
+				sc.xcalls++
 				return o
 			}))
 		case 'e':
 			sp := nx.FeatSpec{Space: evilSpace, Local: "p", Nec: nx.Secure, Neg: true}
 			specs = append(specs, sp)
-			fs = append(fs, nx.AbstractFeature(sp, log, func(nx.FeatSpec, uint8) nx.Outcome { return nx.Outcome{Mask: nx.Ready} }))
+			fs = append(fs, nx.AbstractFeature(sp, logOf, func(context.Context, nx.FeatSpec, uint8) nx.Outcome { return nx.Outcome{Mask: nx.Ready} }))
 		}
 	}
 	return fs, specs
@@ -536,28 +609,20 @@ type running struct {
 }
 
 // start launches the scripted peer and NewSession (each on its own goroutine).
-func start(c *c2Case, domain string, stls *xmpp.StreamFeature, g *gates) *running {
+func start(c *c2Case, domain string, stls *xmpp.StreamFeature, g *gates, ng *negotiation) *running {
 	r := &running{c: c, domain: domain, log: &nx.Log{}, pdone: make(chan struct{}), done: make(chan struct{})}
 	r.a, r.b = nx.NewDuplex()
 	r.p = &peer{conn: r.b, c: c, domain: domain, in: append([]nx.Item(nil), c.In...), tin: append([]nx.Item(nil), c.TLSIn...), gates: g}
 	go func() { defer close(r.pdone); r.p.run() }()
 
-	feats, specs := buildFeatures(c, r.log, stls)
-	r.specs = specs
-	var teeIn, teeOut bytes.Buffer
-	neg := xmpp.NewNegotiator(func(*xmpp.Session, *xmpp.StreamConfig) xmpp.StreamConfig {
-		sc := xmpp.StreamConfig{Features: feats}
-		if c.Tee&1 != 0 {
-			sc.TeeIn = &teeIn
-		}
-		if c.Tee&2 != 0 {
-			sc.TeeOut = &teeOut
-		}
-		return sc
-	})
+	if ng == nil {
+		ng = newNegotiation(c, stls)
+	}
+	r.specs = ng.specs
+	ctx := context.WithValue(context.Background(), sessKey{}, &sessCtx{log: r.log, c: c})
 	go func() {
 		r.pmsg = hx.Catch(func() {
-			r.sess, r.err = xmpp.NewSession(context.Background(), jid.MustParse("srv."+domain), jid.MustParse("me@"+domain), r.a, xmpp.SessionState(c.Bits), neg)
+			r.sess, r.err = xmpp.NewSession(ctx, jid.MustParse("srv."+domain), jid.MustParse("me@"+domain), r.a, xmpp.SessionState(c.Bits), ng.neg)
 		})
 		close(r.done)
 		if g != nil {
@@ -567,8 +632,8 @@ func start(c *c2Case, domain string, stls *xmpp.StreamFeature, g *gates) *runnin
 	return r
 }
 
-func execute(c *c2Case, domain string, stls *xmpp.StreamFeature) (observed, []nx.FeatSpec) {
-	return start(c, domain, stls, nil).collect()
+func execute(c *c2Case, domain string, stls *xmpp.StreamFeature, ng *negotiation) (observed, []nx.FeatSpec) {
+	return start(c, domain, stls, nil, ng).collect()
 }
 
 // collect waits for NewSession to return and gathers the observations.
@@ -1083,19 +1148,24 @@ func (x *runner) run(c *c2Case) {
 		cc := *c
 		cc.Tee = tee
 		var shared *xmpp.StreamFeature
+		var ng *negotiation
 		domains := []string{cc.Domain}
-		if len(cc.Reuse) > 0 && strings.Contains(cc.Feat, "t") {
+		if len(cc.Reuse) > 0 && (strings.Contains(cc.Feat, "t") || cc.ShareNeg) {
 			f := xmpp.StartTLS(clientTLSConfig(&cc))
 			shared = &f
 			domains = append(domains, cc.Reuse...)
+			if cc.ShareNeg {
+				ng = newNegotiation(&cc, shared)
+			}
 		}
 		for si, domain := range domains {
-			o, specs := execute(&cc, domain, shared)
+			sc := cc.forSession(si, domain)
+			o, specs := execute(sc, domain, shared, ng)
 			if os.Getenv("VERIF_DEBUG") != "" {
 				b, _ := json.Marshal(o)
 				fmt.Fprintf(os.Stderr, "tee=%d domain=%s %s\n", tee, domain, b)
 			}
-			x.record(&cc, specs, domain, &o, si)
+			x.record(sc, &cc, specs, domain, &o, si)
 			if si == 0 {
 				if base == nil {
 					b := o
@@ -1133,12 +1203,14 @@ func (x *runner) runInterleaved(c *c2Case) {
 			stuck = true
 		}
 	}
+	var ng *negotiation
+	if c.ShareNeg {
+		ng = newNegotiation(c, &f)
+	}
 	for i, d := range c.Inter.Domains {
-		cc := *c
-		cc.Domain = d
-		cs[i] = &cc
+		cs[i] = c.forSession(i, d)
 		gs[i] = newGates()
-		rs[i] = start(&cc, d, &f, gs[i])
+		rs[i] = start(cs[i], d, &f, gs[i], ng)
 	}
 	for i := range rs {
 		wait(i) // every session has sent its stream header
@@ -1166,7 +1238,7 @@ func (x *runner) runInterleaved(c *c2Case) {
 		if stuck && o.Class != "timeout" {
 			x.res.Fail("C02/timeout", "an interleaved history did not advance", c)
 		}
-		x.record(cs[i], specs, cs[i].Domain, &o, i)
+		x.record(cs[i], c, specs, cs[i].Domain, &o, i)
 	}
 }
 
@@ -1216,7 +1288,9 @@ func diff(a, b *observed) string {
 	return "observations differ: " + string(ja) + " vs " + string(jb)
 }
 
-func (x *runner) record(c *c2Case, specs []nx.FeatSpec, domain string, o *observed, si int) {
+// record files one session: c is the case as that session saw it (what the
+// model is run on), hist the history it belongs to (what a replay must re-run).
+func (x *runner) record(c, hist *c2Case, specs []nx.FeatSpec, domain string, o *observed, si int) {
 	b, _ := json.Marshal(struct {
 		C *c2Case
 		D string
@@ -1239,14 +1313,17 @@ func (x *runner) record(c *c2Case, specs []nx.FeatSpec, domain string, o *observ
 	if c.Inter != nil {
 		classes = append(classes, "interleaved-sessions")
 	}
+	if c.ShareNeg && si > 0 {
+		classes = append(classes, "reused-negotiator-value")
+	}
 	if len(c.In) > 3 && isProceed(&c.In[2]) {
 		classes = append(classes, "pipelined-behind-proceed")
 	}
 	x.res.Count(string(b), strings.Contains(o.Clear, "<starttls") || o.Class == "ok", classes...)
 	for _, f := range oracle(c, domain, o) {
-		x.res.Fail("C02/"+f[0], f[1], c)
+		x.res.Fail("C02/"+f[0], f[1], hist)
 	}
-	x.cf.Add(coqCase(c, specs, domain, o), c)
+	x.cf.Add(coqCase(c, specs, domain, o), hist)
 	if c.Tee == 0 {
 		x.res.Sample(map[string]interface{}{"case": c, "domain": domain, "observed": o})
 	}
@@ -1288,10 +1365,12 @@ func main() {
 			n = 3000
 		}
 		interleaved(x, r, o.Thorough() || o.Search)
+		negotiatorHistories(x)
 		for i := 0; i < n; i++ {
 			c := genCase(r)
 			if r.Chance(1, 6) && c.HsMode == "nilcfg" || r.Chance(1, 12) {
 				c.Reuse = []string{"example.org", "third.example"}[:1+r.Intn(2)]
+				c.ShareNeg = r.Bool()
 			}
 			x.run(c)
 		}
@@ -1327,7 +1406,9 @@ func interleaved(x *runner, r *hx.Rand, all bool) {
 	}
 	two := []string{"example.net", "example.org"}
 	for k, order := range interleavings(2) {
-		x.run(mk(two, order, k%4, nil, proceed))
+		c := mk(two, order, k%4, nil, proceed)
+		c.ShareNeg = k%2 == 1
+		x.run(c)
 		if k%4 == 0 || all {
 			x.run(mk(two, order, (k/4)%4, sp("tls.example.net"), proceed))
 		}
@@ -1347,6 +1428,52 @@ func interleaved(x *runner, r *hx.Rand, all bool) {
 			order = orders[r.Intn(len(orders))]
 		}
 		x.run(mk(three, order, k%4, nil, proceed))
+	}
+}
+
+// negotiatorHistories: two or three sessions negotiated with ONE Negotiator
+// value (and one StartTLS value).  The earlier session completes, fails or is
+// left waiting for <proceed/>; the peer of the later sessions omits STARTTLS
+// from its first features list (empty list, unknown features only, mechanisms
+// only) and says <proceed/> when asked all the same.  One after the other
+// (x 4 tee modes) and, for two sessions, in every interleaving of their steps.
+func negotiatorHistories(x *runner) {
+	proceed := nx.Item{Kind: "elem", Space: nx.NSStartTLS, Local: "proceed"}
+	failure := nx.Item{Kind: "elem", Space: nx.NSStartTLS, Local: "failure"}
+	full := []nx.Item{hdr, feat(saslChild), hdr, feat(bindChild)}
+	earlier := [][]nx.Item{
+		{hdr, feat(tlsChild(true)), proceed}, // completes
+		{hdr, feat(tlsChild(true)), failure}, // fails
+		{hdr, feat(), proceed},               // itself without STARTTLS in the list
+	}
+	later := []nx.Item{feat(), feat(unkChild), feat(saslChild), feat(rosterChld, sm3Child)}
+	for ei, e := range earlier {
+		for li, l := range later {
+			c := &c2Case{Note: "one Negotiator value, later session's peer omits STARTTLS", Feat: "tsb", HsMode: "nilcfg", ShareNeg: true}
+			c.Domain = "example.net"
+			c.In, c.TLSIn = e, full
+			c.LaterIn, c.LaterTLSIn = []nx.Item{hdr, l, proceed}, full
+			c.Reuse = []string{"example.org", "third.example"}[:1+(ei+li)%2]
+			x.run(c)
+		}
+	}
+	for k, order := range interleavings(2) {
+		c := &c2Case{Note: "one Negotiator value, overlapping sessions, later session's peer omits STARTTLS", Feat: "tsb", HsMode: "nilcfg", ShareNeg: true, Tee: k % 4}
+		c.Domain = "example.net"
+		c.In, c.TLSIn = earlier[k%2], full
+		c.LaterIn, c.LaterTLSIn = []nx.Item{hdr, later[k%len(later)], proceed}, full
+		c.Inter = &interSpec{Domains: []string{"example.net", "example.org"}, Order: order}
+		x.run(c)
+	}
+	// the earlier session is abandoned: it never gets past waiting for <proceed/>
+	// while the later ones run to the end
+	for li, l := range later {
+		c := &c2Case{Note: "one Negotiator value, earlier session left waiting for <proceed/>", Feat: "tsb", HsMode: "nilcfg", ShareNeg: true, Tee: li % 4}
+		c.Domain = "example.net"
+		c.In, c.TLSIn = earlier[0], full
+		c.LaterIn, c.LaterTLSIn = []nx.Item{hdr, l, proceed}, full
+		c.Inter = &interSpec{Domains: []string{"example.net", "example.org", "third.example"}, Order: []int{0, 1, 1, 1, 2, 2, 2}}
+		x.run(c)
 	}
 }
 
